@@ -47,6 +47,8 @@ pub enum Ev {
     AdvanceToNext,
     /// advance by one millisecond (earliest timer is further away)
     Advance1,
+    /// advance to one millisecond before the earliest armed timer
+    AdvanceToJustBefore,
 }
 
 #[derive(Clone, Debug, PartialEq, Eq, Hash)]
@@ -153,14 +155,27 @@ pub struct ClientModel {
 }
 
 pub fn request_for(id: usize) -> Req {
-    // distinct addresses per request so that cross-talk is visible in the returned indices
-    Req::ReadRegs { fc: 3, start: (id as u16) * 16 + 1, count: 2 }
+    // distinct addresses per request so that cross-talk is visible in the returned indices;
+    // the kinds rotate so that every promise type of the client is exercised
+    let a = ((id % 4000) as u16) * 16 + 1;
+    match id % 4 {
+        0 => Req::ReadRegs { fc: 3, start: a, count: 2 },
+        1 => Req::WriteSingleReg { addr: a, value: a ^ 0x5A5A },
+        2 => Req::ReadBits { fc: 1, start: a, count: 3 },
+        _ => Req::WriteMultiCoils { start: a, values: vec![true, false, true] },
+    }
 }
 
 pub fn reply_values(req: &Req) -> Values {
     match req {
         Req::ReadRegs { start, count, .. } => Values::Regs((0..*count).map(|i| (start + i, start.wrapping_mul(3).wrapping_add(i))).collect()),
-        _ => unreachable!(),
+        Req::ReadBits { start, count, .. } => Values::Bits((0..*count).map(|i| (start + i, (start + i) % 3 == 0)).collect()),
+        Req::WriteSingleReg { addr, value } => Values::EchoReg(*addr, *value),
+        Req::WriteSingleCoil { addr, value } => Values::EchoCoil(*addr, *value),
+        Req::WriteMultiCoils { .. } | Req::WriteMultiRegs { .. } => {
+            let (s, c) = req.span();
+            Values::EchoRange(s, c)
+        }
     }
 }
 
@@ -265,6 +280,9 @@ impl ClientModel {
                 v.push(Ev::AdvanceToNext);
                 if t > self.now + 1 {
                     v.push(Ev::Advance1);
+                }
+                if t > self.now + 2 {
+                    v.push(Ev::AdvanceToJustBefore);
                 }
             }
             v.push(Ev::AbortTask);
@@ -582,9 +600,13 @@ impl ClientModel {
             Ev::WriteErrorNext => {
                 self.write_error_armed = true;
             }
-            Ev::AdvanceToNext | Ev::Advance1 => {
+            Ev::AdvanceToNext | Ev::Advance1 | Ev::AdvanceToJustBefore => {
                 let t = self.next_timer().expect("timer armed");
-                self.now = if *ev == Ev::Advance1 { self.now + 1 } else { t };
+                self.now = match ev {
+                    Ev::Advance1 => self.now + 1,
+                    Ev::AdvanceToJustBefore => t - 1,
+                    _ => t,
+                };
                 if self.now >= t {
                     match self.phase.clone() {
                         Phase::InFlight { req, .. } => {
